@@ -2,10 +2,12 @@ package main
 
 import (
 	"bytes"
+	"compress/flate"
 	"fmt"
 	"math/rand"
 	"strings"
 	"sync"
+	"time"
 )
 
 func init() {
@@ -100,6 +102,51 @@ func genWriteCase(rng *rand.Rand, maxSize int, withClose bool) *WriteCase {
 		c.Ops = append(c.Ops, WriteOp{Kind: "close", Code: code, Reason: hx(reason)})
 	}
 	c.Desc = fmt.Sprintf("client=%v flate=%v cnct=%v snct=%v thr=%d ops=%d", c.Client, c.Flate, c.CNCT, c.SNCT, c.Threshold, len(c.Ops))
+	return c
+}
+
+// countWrites counts the pieces a deflater hands to its underlying writer.
+type countWrites struct{ n, bytes int }
+
+func (c *countWrites) Write(p []byte) (int, error) { c.n++; c.bytes += len(p); return len(p), nil }
+
+// genPingInsideCase: a compressed message streamed through Writer with a Ping issued when exactly k data
+// frames of it have been written (they may still sit in the write buffer). The compressor hands out its output in pieces (each becomes a frame) and
+// only when an input block is full, so the first chunk is searched for: > 64 KiB of periodic text whose
+// first block leaves the deflater (same level as the library's) in exactly k pieces.
+func genPingInsideCase(rng *rand.Rand, k int) *WriteCase {
+	c := &WriteCase{Client: rng.Intn(2) == 0, Flate: true, Threshold: []int{0, 1, 64}[rng.Intn(3)], NoModel: true}
+	c.CNCT, c.SNCT = rng.Intn(2) == 0, rng.Intn(2) == 0
+	var first []byte
+	for try := 0; try < 400 && first == nil; try++ {
+		period := 1 + rng.Intn(40+try)
+		pat := randBytes(rng, period)
+		for i := range pat {
+			pat[i] = 'a' + pat[i]%26
+		}
+		p := make([]byte, 66000+rng.Intn(3000))
+		for i := range p {
+			p[i] = pat[i%period]
+		}
+		var cw countWrites
+		fw, _ := flate.NewWriter(&cw, flate.BestSpeed)
+		fw.Write(p)
+		// the trim writer in front of the frame writer turns the first piece into one frame and every later
+		// piece into two (the four bytes it held back, then the piece)
+		frames := 0
+		if cw.n > 0 {
+			frames = 2*cw.n - 1
+		}
+		if frames == k {
+			first = p
+		}
+	}
+	if first == nil {
+		first = bytes.Repeat([]byte("a"), 66000)
+	}
+	c.Ops = []WriteOp{{Kind: "writer", Typ: 1 + rng.Intn(2), Chunks: []string{hx(first), hx([]byte(" and the rest of the message"))}, PingAfterChunk: 1},
+		{Kind: "write", Typ: 1, Chunks: []string{hx([]byte("after"))}}}
+	c.Desc = fmt.Sprintf("ping inside a compressed streamed message at %d frame(s) client=%v", k, c.Client)
 	return c
 }
 
@@ -323,7 +370,7 @@ func runC01(ctx *runCtx) {
 	ctx.rep.Rule = "programs of 1..6 Write / Writer(chunked) / Ping calls with boundary-heavy sizes (0,125,126,65535,65536,4096k±1,...), both types, compressible and not, both roles, " +
 		"flate off / on with all four (client_no_context_takeover, server_no_context_takeover) pairs, thresholds {default,1,64,4096,huge,random}; plus histories > 32 KiB under context takeover; " +
 		"wire recorded on a sink transport, decoded by an independent codec (+compress/flate with the sender's takeover), compared with the Lean writer model, and fed to a real peer Conn and the Lean reader model; caller buffers snapshotted. " +
-		"distinct = (config, op count, total bytes)"
+		"a Ping issued inside a compressed streamed message when exactly 1 or 3 of its data frames have been written; Dial against Accept through a real handshake for all 3x3 compression-mode pairs followed by history-dependent messages both ways. distinct = (config, op count, total bytes)"
 	if replayWrite(ctx, "C01") {
 		return
 	}
@@ -339,6 +386,9 @@ func runC01(ctx *runCtx) {
 	for i := 0; i < nh; i++ {
 		cases = append(cases, genHistoryCase(rng))
 	}
+	for i := 0; i < nh; i++ {
+		cases = append(cases, genPingInsideCase(rng, 1+2*(i%2)))
+	}
 	if ctx.thorough() {
 		// >= 1 MiB messages through the oracle only
 		for i := 0; i < 12; i++ {
@@ -350,6 +400,19 @@ func runC01(ctx *runCtx) {
 		}
 	}
 	runWriteCases(ctx, cases, "C01")
+	// end to end through a real handshake: Dial against Accept for every pair of compression modes, then
+	// messages that refer back to earlier ones, both directions (what the two ends negotiated decides
+	// whether the peer can decode)
+	for cm := 0; cm <= 2; cm++ {
+		for sm := 0; sm <= 2; sm++ {
+			sh, w := guarded(30*time.Second, func() (string, string) { return c14LibLib(cm, sm) })
+			ctx.rep.eval(fmt.Sprintf("lib-lib/%d/%d", cm, sm))
+			ctx.rep.count("lib-lib-pairs")
+			if sh != "" {
+				ctx.rep.violate(Violation{Kind: "property", Shape: "round-trip-after-handshake:" + sh, What: w, Replay: map[string]int{"client_mode": cm, "server_mode": sm}})
+			}
+		}
+	}
 }
 
 func runC02(ctx *runCtx) {
@@ -370,6 +433,9 @@ func runC02(ctx *runCtx) {
 	}
 	for i := 0; i < 4; i++ {
 		cases = append(cases, genHistoryCase(rng))
+	}
+	for i := 0; i < 8; i++ {
+		cases = append(cases, genPingInsideCase(rng, 1+2*(i%2)))
 	}
 	runWriteCases(ctx, cases, "C02")
 }
